@@ -17,7 +17,7 @@ from typing import Callable, Iterable, Optional
 VERIF = Path(__file__).resolve().parent.parent
 LEAN = VERIF / "lean"
 DRIVER = LEAN / ".lake" / "build" / "bin" / "archsim-model"
-EVIDENCE = VERIF / "evidence"
+EVIDENCE = Path(os.environ.get("VERIF_EVIDENCE_DIR") or VERIF / "evidence")   # seedtest.py redirects it: evidence is of the unchanged tree only
 REPLAYS = VERIF / "replays"
 CORPUS = VERIF / "corpus"
 KNOWN = VERIF / "known_findings.json"
